@@ -72,6 +72,8 @@ def array_spec(draw, min_dims=0, max_dims=4, min_size=0, max_size=4, kinds="ifs"
         nd = draw(st.integers(min_dims, max_dims))
         dims = list(draw(st.permutations(names)))[:nd]
     sizes = [draw(st.integers(min_size, max_size)) for _ in dims]
+    if max_size >= 4 and 1 <= len(dims) <= 2 and draw(st.integers(0, 9)) == 0:
+        sizes[draw(st.integers(0, len(dims) - 1))] = draw(st.integers(6, 9))     # an occasional longer axis
     if square and len(dims) >= 2 and draw(st.booleans()):
         sizes = [sizes[0]] * len(dims)
     labs = [draw(labels(n, kinds=kinds)) for n in sizes]
